@@ -16,6 +16,10 @@ pub mod bracket;
 pub mod c07;
 pub mod c10;
 pub mod c11;
+pub mod c12;
+pub mod c13;
+pub mod c14;
+pub mod c15;
 pub mod c16;
 pub mod c17;
 
@@ -32,6 +36,10 @@ pub fn make(property: &str) -> Vec<Box<dyn Monitor>> {
         "C07" => vec![Box::new(c07::C07::default())],
         "C10" => vec![Box::new(c10::C10::default())],
         "C11" => vec![Box::new(c11::C11::default())],
+        "C12" => vec![Box::new(c12::C12::default())],
+        "C13" => vec![Box::new(c13::C13::default())],
+        "C14" => vec![Box::new(c14::C14::default())],
+        "C15" => vec![Box::new(c15::C15::default())],
         "ALL" => vec![
             Box::new(c02::C02::default()),
             Box::new(c16::C16::default()),
@@ -44,6 +52,10 @@ pub fn make(property: &str) -> Vec<Box<dyn Monitor>> {
             Box::new(c07::C07::default()),
             Box::new(c10::C10::default()),
             Box::new(c11::C11::default()),
+            Box::new(c12::C12::default()),
+            Box::new(c13::C13::default()),
+            Box::new(c14::C14::default()),
+            Box::new(c15::C15::default()),
         ],
         _ => vec![],
     }
